@@ -71,7 +71,21 @@ int Var::div(Var &var_d, Var &var_s)
 {
   if (var_d.type == VAR_INT && var_s.type == VAR_INT)
   {
-    value_int = var_d.value_int / var_s.value_int;
+    if (var_s.value_int == 0)
+    {
+      printf("Error: Division by zero in expression.\n");
+      return -1;
+    }
+
+    if (var_s.value_int == -1)
+    {
+      // INT64_MIN / -1 overflows (and traps); negate with wrap around.
+      value_int = (int64_t)(0 - (uint64_t)var_d.value_int);
+    }
+      else
+    {
+      value_int = var_d.value_int / var_s.value_int;
+    }
   }
     else
   {
@@ -87,7 +101,14 @@ int Var::mod(Var &var_d, Var &var_s)
   var_d.to_int();
   var_s.to_int();
 
-  value_int = var_d.value_int % var_s.value_int;
+  if (var_s.value_int == 0)
+  {
+    printf("Error: Modulo by zero in expression.\n");
+    return -1;
+  }
+
+  // INT64_MIN % -1 traps although the result is 0.
+  value_int = (var_s.value_int == -1) ? 0 : var_d.value_int % var_s.value_int;
 
   return 0;
 }
